@@ -147,6 +147,14 @@ def classify_store(ctx, f, nd, tgt, val, K, mask_in_scope):
                     return 'bad', '(i) arc stored without testing that its source vertex is in the mask'
                 if not need['w']:
                     return 'bad', '(i) arc stored without testing that its target vertex is in the mask'
+            # any further condition that depends on the vertex being processed drops arcs of some vertices
+            for atom, pol in ctx.conds(f, nd):
+                core = atom[2] if (atom[0] == 'cmp' and atom[1] in ('==', '!=') and atom[3][0] == 'c') else atom
+                if core[0] == 'sub' and core[1][0] == 'v' and is_mask_name(f, core[1][1]) and core[2] in (u, w):
+                    continue
+                if any(x == u or x == w[1] for x in walk_term(atom)):
+                    return 'bad', ('(i) the arc store is additionally conditioned on %s (%s), which depends on the vertex being '
+                                   'processed: arcs of the vertices that fail it are dropped' % (show(atom)[:80], pol))
             return 'ok', '(i) column j = j-th successor, both endpoints masked' if mask_in_scope else '(i) column j = j-th successor'
         # (ii) latter map row
         if j[0] == 'bin' and j[1] == '%' and j[2] == w and j[3] == ('c', 4):
@@ -447,6 +455,26 @@ def r_fix(ctx):
                   "the trimming loop never feeds its result back: `%s` at the loop head is only the value from before "
                   "the loop, so a second iteration recomputes the same thing (or the loop exits after one pass)" % carried,
                   inputs='masks that need two or more trimming rounds')
+        # the collection fed back is built afresh every round (a buffer allocated once aliases the mask after the first
+        # feedback, and "nothing changed" is then trivially true)
+        for di in inloop:
+            d = f.defs[di]
+            if d.kind == 'assign' and isinstance(d.value, ast.Name):
+                src = d.value.id
+                src_defs = [x for x in f.defs if x.name == src and x.kind == 'assign']
+                fresh = any(x.node in body for x in src_defs)
+                run.check(fresh, 'R-FIX', f, 'round-buffer-fresh', f.nodes[d.node].lineno,
+                          'the collection fed back is allocated inside the loop',
+                          "`%s` is fed back as `%s` but is allocated once outside the trimming loop: after the first feedback "
+                          "both names denote the same object, `changed` is always 0 and trimming stops after two rounds"
+                          % (src, carried), inputs='masks that need three or more trimming rounds')
+        if not (isinstance(head.ast, ast.Constant) and head.ast.value is True):
+            t = f.term(head.ast, head)
+            okt = any(is_change_indicator(ctx, f, a, carried, body) for a, p in flatten_cond(t, True))
+            run.check(okt, 'R-FIX', f, 'loop-test-is-change-test', head.lineno, 'the loop test is a change test',
+                      "the trimming loop also ends when %s becomes false, whether or not a round still removed something: "
+                      "the fixed point is not reached for masks that need more rounds" % show(t)[:80],
+                      inputs='masks whose chain of dying vertices is longer than the bound')
         # exits
         breaks = [n for n in f.nodes if n.id in body and isinstance(n.stmt, ast.Break) and n.loops[-1] == head.id]
         rets = [n for n in f.nodes if n.id in body and isinstance(n.stmt, ast.Return)]
@@ -732,6 +760,13 @@ def r_bfs(ctx):
         run.check(bool(front and rebind), 'R-BFS', f, 'depth-loop#%d:frontier-rebound' % (i + 1), nd.lineno,
                   'the frontier is replaced by the new level each round',
                   'the frontier of the breadth-first search is not rebound inside the level loop', inputs='depth >= 2')
+        # the frontier loop visits every element: no break / return inside it
+        for x in f.nodes:
+            if x.id in body and isinstance(x.stmt, (ast.Break, ast.Return)) and len(x.loops) >= 2 and x.loops[0] == nd.id:
+                run.refute('R-BFS', f, 'depth-loop#%d:frontier-loop-not-cut-short' % (i + 1), x.lineno,
+                           'the loop over the frontier is left early (%s at line %d): the remaining frontier vertices are not '
+                           'expanded, so leaves are lost and the two representations disagree'
+                           % (type(x.stmt).__name__.lower(), x.lineno), inputs='frontiers containing a vertex without successors')
         # every frontier element is expanded: the statement that extends the level is conditioned on nothing but
         # "the vertex has an entry" (latter-map arm)
         for x in f.nodes:
